@@ -881,6 +881,18 @@ Token *clangimport::AstNode::createTokens(TokenList &tokenList)
     }
     if (nodeType == CompoundStmt) {
         for (const AstNodePtr& child: children) {
+            if (child->nodeType == DeclStmt && child->children.size() > 1) {
+                // int a = 1, *b = &a;  =>  int a = 1 ; int * b = & a ;  (every declarator is imported,
+                // split like the tokenizer splits declarations)
+                for (const AstNodePtr& decl: child->children) {
+                    if (!decl)
+                        continue;
+                    decl->createTokens(tokenList);
+                    if (!Token::Match(tokenList.back(), "[;{}]"))
+                        decl->addtoken(tokenList, ";");
+                }
+                continue;
+            }
             child->createTokens(tokenList);
             if (!Token::Match(tokenList.back(), "[;{}]"))
                 child->addtoken(tokenList, ";");
